@@ -7,7 +7,7 @@ CFG = {
         # tie (1): the real copyBufferLog / copyTwoWayEx under scripted readers, writers, loggers and schedules
         {"mod": "core", "component": "relay", "driver": "relay", "n": {"quick": 5000, "thorough": 100000}},
         # tie (2): the real client + server over loopback UDP with a scripted outbound connection
-        {"mod": "core", "component": "relaylb", "driver": "relay", "n": {"quick": 60, "thorough": 1000}, "timeout": 7200},
+        {"mod": "core", "component": "relaylb", "driver": "relay", "n": {"quick": 70, "thorough": 1000}, "timeout": 7200},
     ],
     "rule": "relay: one op = one run of the REAL copyBufferLog (70%) or copyTwoWayEx (30%, both goroutines gated so that "
             "their interleaving and the teardown points are the PRNG's schedule) against a scripted source (0..40 reads; sizes 0, 1, "
@@ -16,7 +16,8 @@ CFG = {
             "digest of the forwarded bytes, logged/offered/in-flight counts and the full sequence of Read/log/Write calls. "
             "relaylb: one op = one proxied TCP connection through the real client and server over loopback (fresh pair per op), classes "
             "tfin/cfin/cearly/tearly/trerr/twerr/veto(T|R × now|late)/dial(0,1,2047,2048,2049,5000,random), fast open on/off, logger "
-            "present/absent; dial ops compared exactly with the model, relay ops by evaluating the model's relations on the observed trace. "
+            "present/absent, RequestHook absent / declining / intercepting-without-change, and (fast open) 0-2 Reads that time out while the outbound "
+            "dial is held back; dial ops compared exactly with the model, relay ops by evaluating the model's relations on the observed trace. "
             "distinct = distinct op line; non-trivial = bytes were forwarded or logged, a chunk was refused, or a dial error was delivered",
     "trusted_base": [
         "io.Reader/io.Writer contracts: Read returns at most len(buf) bytes; Write returns a non-nil error whenever it accepts fewer bytes "
@@ -47,7 +48,7 @@ MANIFEST = {
             "chunk and closes the connection in both directions; a clean direction that returns has forwarded everything (fairness hypothesis); "
             "a failed dial reaches the client as DialError with the message (cut to 2048 bytes) for every padding and chunking, via C04's round "
             "trip. Tied to the source by regenerated constants, a 5000-case exact differential of the real copy functions under scripted "
-            "environments and imposed schedules, and 60 real client/server loopback relays per run (thorough: 100000 + 1000, -race).",
+            "environments and imposed schedules, and 70 real client/server loopback relays per run (thorough: 100000 + 1000, -race).",
     "note": "Trusted: Lean kernel (+leanchecker); the Go harness and hydrv; io.Reader/io.Writer contracts; quic-go stream semantics; step "
             "atomicity. Completeness is partial (fairness is a hypothesis). Residual risk: implementation differs from the model on an "
             "input/schedule the generators did not draw.",
